@@ -32,31 +32,31 @@ Print Assumptions C15_instrumented_operation_counted_once.
     ([ns_count]: the number of identifiers [_ddiast] in a tree), whatever the operands, the
     accumulated state and the configuration. *)
 Theorem C15_binary_adds_one_reference : forall c lo hi opn l r p out p',
-  ident_clean l -> ident_clean r ->
+  (is_ident l = true -> ns_count l = 0) -> (is_ident r = true -> ns_count r = 0) ->
   binary_transform c (Node (K KBin lo hi) [opn; l; r]) p = (Some out, p') ->
   ns_count out = 1 + ns_count (Node (K KBin lo hi) [opn; l; r]).
-Proof. exact binary_transform_ns. Qed.
+Proof. exact (binary_transform_ns (stop:=no_stop) (kappa:=1)). Qed.
 Print Assumptions C15_binary_adds_one_reference.
 
 Theorem C15_template_adds_one_reference : forall c e p out p',
   template_transform c e p = (Some out, p') -> ns_count out = 1 + ns_count e.
-Proof. exact template_transform_ns. Qed.
+Proof. exact (template_transform_ns (stop:=no_stop) (kappa:=1)). Qed.
 Print Assumptions C15_template_adds_one_reference.
 
 Theorem C15_call_adds_one_reference : forall c lo hi cx callee args targs p out tag p',
-  call_fields_ok cx targs ->
+  (ns_count cx = 0 /\ ns_count targs = 0) ->
   (is_ident callee = true -> ns_count callee = 0) ->
   call_transform c (Node (K KCall lo hi) [cx; callee; Node Lst args; targs]) p = (Some (out, tag), p') ->
   ns_count out = 1 + ns_count (Node (K KCall lo hi) [cx; callee; Node Lst args; targs]).
-Proof. exact call_transform_ns. Qed.
+Proof. exact (call_transform_ns (stop:=no_stop) (kappa:=1)). Qed.
 Print Assumptions C15_call_adds_one_reference.
 
 Theorem C15_compound_assignment_adds_one_reference : forall c lo hi opn lhs rhs p out p',
-  ns_count opn = 0 -> ident_clean rhs ->
+  ns_count opn = 0 -> (is_ident rhs = true -> ns_count rhs = 0) ->
   (forall lhs' hoisted p0, hoist_target c lhs (lo, hi) acc0 p = (lhs', hoisted, p0) -> ns_count lhs' = 0) ->
   assign_transform c (Node (K KAssign lo hi) [opn; lhs; rhs]) p = (Some out, p') ->
   ns_count out = 1 + ns_count (Node (K KAssign lo hi) [opn; lhs; rhs]).
-Proof. exact assign_transform_ns. Qed.
+Proof. exact (assign_transform_ns (stop:=no_stop) (kappa:=1)). Qed.
 Print Assumptions C15_compound_assignment_adds_one_reference.
 
 (** ** Global statement for one block region.  For every configuration whose verbosity is not OFF,
@@ -70,7 +70,7 @@ Theorem C15_count_equals_references_emitted : forall c, c_verbosity c <> VOff ->
     wf_all n = true /\ ns_count n = 0 ->
     t_status (o_t s) <> Cancelled ->
     (N.of_nat (ns_count n') + t_count (o_t s) = t_count (o_t s'))%N /\ t_status (o_t s') <> Cancelled.
-Proof. exact op_visit_count. Qed.
+Proof. exact op_visit_count_ns. Qed.
 Print Assumptions C15_count_equals_references_emitted.
 
 (** The names registered for declaration are always temporaries' names (never the namespace). *)
